@@ -342,7 +342,43 @@ func prepareEngine(cs *chartSpec) (*chart.Chart, chartutil.Values, error) {
 	return ch, top, err
 }
 
+// copyTop gives every engine.Render call its own values tree (templates may `set` into .Values);
+// chart metadata, capabilities and release data stay shared.
+func copyTop(top chartutil.Values) chartutil.Values {
+	out := chartutil.Values{}
+	for k, v := range top {
+		out[k] = v
+	}
+	out["Values"] = deepCopyValues(top["Values"])
+	return out
+}
+
+func deepCopyValues(v any) any {
+	switch t := v.(type) {
+	case chartutil.Values:
+		o := make(chartutil.Values, len(t))
+		for k, x := range t {
+			o[k] = deepCopyValues(x)
+		}
+		return o
+	case map[string]any:
+		o := make(map[string]any, len(t))
+		for k, x := range t {
+			o[k] = deepCopyValues(x)
+		}
+		return o
+	case []any:
+		o := make([]any, len(t))
+		for i, x := range t {
+			o[i] = deepCopyValues(x)
+		}
+		return o
+	}
+	return v
+}
+
 func engineRender(ch *chart.Chart, top chartutil.Values, dns bool) (s engSnap) {
+	top = copyTop(top)
 	defer func() {
 		if x := recover(); x != nil {
 			s = engSnap{Err: true, Text: fmt.Sprintf("PANIC in engine: %v", x)}
